@@ -78,6 +78,10 @@ pub fn install_panic_hook() {
         }
     }));
 }
+/// a panic raised by the library or its dependencies (anything but the harness's own source files)
+pub fn library_panic(p: &PanicRec) -> bool {
+    !p.loc.contains("/harness/src/") && !p.loc.starts_with("src/")
+}
 /// file (without line) + first words of the message: stable across unrelated edits
 pub fn panic_sig(p: &PanicRec) -> String {
     let file = p.loc.rsplit_once(':').map(|x| x.0).unwrap_or(&p.loc);
